@@ -11,6 +11,14 @@ use super::{
 };
 use crate::names::*;
 
+/// Names of the argument buffers - only a fixed number have names reserved for them
+const ARGUMENT_BUFFER_NAMES: &[&str] = &[
+    ARGUMENT_BUFFER_0_NAME,
+    ARGUMENT_BUFFER_1_NAME,
+    ARGUMENT_BUFFER_2_NAME,
+    ARGUMENT_BUFFER_3_NAME,
+];
+
 /// Generate the entry point and helper structs for a pipeline definition
 pub(crate) fn generate_pipeline(
     def: Option<&ir::PipelineDefinition>,
@@ -49,13 +57,6 @@ pub(crate) fn generate_pipeline(
             global_to_set_index.insert(argument.id, i);
         }
     }
-
-    pub const ARGUMENT_BUFFER_NAMES: &[&str] = &[
-        ARGUMENT_BUFFER_0_NAME,
-        ARGUMENT_BUFFER_1_NAME,
-        ARGUMENT_BUFFER_2_NAME,
-        ARGUMENT_BUFFER_3_NAME,
-    ];
 
     let mut defs = Vec::new();
 
@@ -978,6 +979,11 @@ fn analyse_bindings(
                     // Static samplers are in source code so are not reflected
                     static_sampler: None,
                 };
+
+                // Refuse the group before a table that reaches up to its index is built
+                if api_slot.set as usize >= ARGUMENT_BUFFER_NAMES.len() {
+                    return Err(GenerateError::UnsupportedBindGroupIndex);
+                }
 
                 layout.register_binding(api_slot.set, binding, *id);
             }
